@@ -47,7 +47,8 @@ Section History.
     cf_bfield : P -> vec;       (* plasma.b_field *)
     cf_lel : Z; cf_lch : Z;     (* BeamCXLine.line: element, charge *)
     cf_prov : provider;         (* beam.atomic_data *)
-    cf_len : Q; cf_att : Q; cf_energy : Q   (* beam.length, attenuator density at the beam point, beam.energy *) }.
+    cf_len : Q; cf_att : P -> Q; cf_energy : Q   (* beam.length, attenuator density (a point carries the beam-space
+                                               position too), beam.energy *) }.
 
   Inductive mutation :=
   | MAdd (o : sobj)                   (* plasma.composition.add(o) *)
@@ -56,7 +57,7 @@ Section History.
   | MLine (el ch : Z)                 (* model.line = Line(el, ch, ...) *)
   | MProvider (pv : provider)         (* beam.atomic_data = pv *)
   | MBfield (b : P -> vec)            (* plasma.b_field = b *)
-  | MBeam (len att energy : Q).       (* beam.length / attenuator / beam.energy *)
+  | MBeam (len : Q) (att : P -> Q) (energy : Q).   (* beam.length / attenuator / beam.energy *)
 
   Definition apply_mut (m : mutation) (c : config) : config :=
     match m with
@@ -94,9 +95,9 @@ Section History.
   (* one call of emission() with cache [s] on the live configuration [c] *)
   Definition eval_cx (s : snap) (c : config) (p : P) (beam_z : Q) (dir : vec) : outcome :=
     cx_emission_gen sqrt K (map (sample p) (sn_objs s)) (map (sample p) (cf_objs c)) (cf_bfield c p)
-                    (sn_lel s) (sn_lch s) (rates_of s) (cf_len c) beam_z (cf_att c) dir (cf_energy c).
+                    (sn_lel s) (sn_lch s) (rates_of s) (cf_len c) beam_z (cf_att c p) dir (cf_energy c).
   Definition eval_bes (s : snap) (c : config) (p : P) (beam_z : Q) (dir : vec) : outcome :=
-    bes_emission sqrt K (map (sample p) (sn_objs s)) (pecs_of s) (cf_len c) beam_z (cf_att c) dir (cf_energy c).
+    bes_emission sqrt K (map (sample p) (sn_objs s)) (pecs_of s) (cf_len c) beam_z (cf_att c p) dir (cf_energy c).
 
   (* the formulas of the property on the current configuration (a freshly built model) *)
   Definition fresh_cx (c : config) := eval_cx (snapshot_of c) c.
